@@ -130,7 +130,47 @@ def post_c18diff(work, reports, ctx):
             'violations_total': sum(v['count'] for v in viols.values()), 'violations': list(viols.values()), 'inconclusive': inconclusive, 'notes': []}
 
 
-POSTS = {'c05diff': post_c05diff, 'c18diff': post_c18diff}
+def post_c11nostd(work, reports, ctx):
+    """Offline checker: the same seeded Span::round / Span::total cases, run against jiff built without its `std`
+    feature (own float routines, src/util/libm.rs) and with it, must give identical results line by line."""
+    import re
+    logs = {'nstd': {}, 'nstd_std': {}}
+    for f in glob.glob(os.path.join(work, 's*-nstd*-*.json.c11n')):
+        m = re.search(r's\d+-(nstd|nstd_std)-(\d+)\.json\.c11n$', f)
+        if m:
+            logs[m.group(1)][int(m.group(2))] = f
+    inconclusive = []
+    if not logs['nstd'] or set(logs['nstd']) != set(logs['nstd_std']):
+        inconclusive.append('std/no-std result logs missing or not paired: %s vs %s' % (sorted(logs['nstd']), sorted(logs['nstd_std'])))
+    nsh = len(logs['nstd'])
+    compared = 0
+    mism = 0
+    viols = {}
+    for sh in sorted(set(logs['nstd']) & set(logs['nstd_std'])):
+        a = open(logs['nstd'][sh]).read().splitlines()
+        b = open(logs['nstd_std'][sh]).read().splitlines()
+        if len(a) != len(b):
+            inconclusive.append(f'shard {sh}: {len(a)} no-std results vs {len(b)} std results')
+            continue
+        compared += 2 * len(a)
+        if a == b:
+            continue
+        for x, y in zip(a, b):
+            if x == y:
+                continue
+            fx, fy = x.split('\t'), y.split('\t')
+            which = 'Span::round' if fx[8:9] != fy[8:9] else 'Span::total' if fx[9:10] != fy[9:10] else 'inputs'
+            mism += 1
+            cls = f'std-and-no-std-builds-disagree/{which}[{fx[7] if len(fx) > 7 else "?"}]'
+            if cls in viols:
+                viols[cls]['count'] += 1
+            else:
+                viols[cls] = {'class': cls, 'case': f'nstd|{nsh}|{sh}|{fx[0]}', 'expected': 'with std: ' + y[:300], 'got': 'without std: ' + x[:300], 'count': 1}
+    return {'flavour': 'offline', 'evaluations': compared, 'distinct_nontrivial': 0, 'samples': [], 'counters': {'std_nostd_results_compared': compared, 'std_nostd_mismatches': mism},
+            'violations_total': mism, 'violations': list(viols.values()), 'inconclusive': inconclusive, 'notes': []}
+
+
+POSTS = {'c05diff': post_c05diff, 'c18diff': post_c18diff, 'c11nostd': post_c11nostd}
 
 COMMON_ASSUME = [
     'reference models in /verif/harness/src/{cal,tzref,arith}.rs are the trusted base; cal is cross-checked odometer vs Hinnant over the full range at start-up',
@@ -381,14 +421,15 @@ PROPS['C09'] = dict(
 PROPS['C11'] = dict(
     sub='c11',
     prep=['synth'],
-    quick=[S('rel'), S('dbg')],
-    thorough=[S('rel'), S('dbg')],
+    post=['c11nostd'],
+    quick=[S('rel'), S('dbg'), S('nstd'), S('nstd_std')],
+    thorough=[S('rel'), S('dbg'), S('nstd'), S('nstd_std')],
     rule='seeded (reference, span, smallest, largest|default, increment, mode) cases: references = civil date / civil datetime (biased to limits of months, leap days, midnight), zoned datetimes within +-2 days of transitions in a rotating 1/13 sample of the C03 corpus (+ all hand-written synthetic zones), '
          'the days-are-24-hours marker, and no reference; spans with 1-4 units of one sign from tiny to thousands of days (and limit-biased ones); increments from the divisors of the next unit plus {0,-1,the unit size, non-divisors}; all 9 modes; sometimes units the reference does not permit. '
          'Oracle (end-point conservation, jiff\'s own separately-monitored addition as the evaluation function): T = greedy balanced truncation of r..r+span found by binary search with checked_add only, lo = r+T, hi = r+(T + sign*inc*smallest); r + rounded must be the end chosen from the exact integers (x-lo, hi-lo) by the mode (half-even parity on the grid that is rounded); '
          'plus: no unit above largest / below smallest, smallest a multiple of the increment, sign kept. total(unit) = greedy whole units + (x-lo)/(hi-lo) within 1e-12 relative; compare == ordering of r+a, r+b; to_duration == exact distance; r+(a+b) == (r+a)+b for civil/uniform references; calendar units without a reference must be refused. '
          'distinct_nontrivial = distinct rounding cases whose r+span is strictly inside its window',
-    floors={'quick': {'rounds_ok': 1500000, 'zones': 60, 'zoned_cases': 400000}, 'thorough': {'rounds_ok': 40000000, 'zones': 300}},
+    floors={'quick': {'rounds_ok': 1500000, 'zones': 60, 'zoned_cases': 400000, 'std_nostd_results_compared': 9000000}, 'thorough': {'rounds_ok': 40000000, 'zones': 300, 'std_nostd_results_compared': 100000000}},
     assumptions=COMMON_ASSUME + TZ_ASSUME[2:3] + [
         'no end-point verdict when the reference day of month is 29-31 and months/years are involved (clamping), when a window end lands in a gap/fold, or when a calendar smallest unit is rounded in increments > 1 with larger units present (Temporal rejects that configuration; jiff\'s result is on no single grid)',
         'with weeks as the largest and days as the smallest unit relative to a civil reference the increment applies to the total number of days',
